@@ -60,6 +60,12 @@ type Scenario struct {
 	// program has collected the outcome of its pending calls and subscriptions
 	// (it reports on a channel which is read afterwards)
 	BlockingCallback bool `json:"blocking_callback,omitempty"`
+	// EndedSub: the peer ends the first subscription by itself (an error frame
+	// for its signal, as when the object behind it is terminated) while the
+	// connection stays up; then one more disconnect callback is registered, and
+	// then the program calls the cancel function of the subscription which is
+	// already over. The connection is still healthy: no callback has fired
+	EndedSub bool `json:"ended_sub,omitempty"`
 }
 
 // Case is a scenario; Only restricts the run to one fault (replay files).
@@ -97,6 +103,9 @@ func genCase(t *rapid.T) Case {
 	}
 	if sc.Callbacks > 0 && rapid.IntRange(0, 2).Draw(t, "blockingcb") == 0 {
 		sc.BlockingCallback = true
+	}
+	if sc.Subs > 0 && !sc.IdleSub && rapid.IntRange(0, 3).Draw(t, "endedsub") == 0 {
+		sc.EndedSub = true
 	}
 	sc.CloseErr = rapid.IntRange(0, 4).Draw(t, "closeerr") == 0
 	sc.MaxRead = rapid.SampledFrom([]int{0, 5, 13, 28}).Draw(t, "maxread")
@@ -191,7 +200,7 @@ func run(sc Scenario, fault *hio.Fault, localCloseAt int) runResult {
 	client := bus.NewClient(bus.NewContext(ep))
 	defer ep.Close()
 
-	cbCounts := make([]int32, sc.Callbacks)
+	cbCounts := make([]int32, sc.Callbacks, sc.Callbacks+1)
 	collected := make(chan struct{})
 	var collectedOnce sync.Once
 	collect := func() { collectedOnce.Do(func() { close(collected) }) }
@@ -207,10 +216,14 @@ func run(sc Scenario, fault *hio.Fault, localCloseAt int) runResult {
 	}
 	subClosed := make([]chan struct{}, sc.Subs)
 	subEvents := make([]int32, sc.Subs)
+	var cancelFirst func()
 	for i := range subClosed {
 		i := i
 		subClosed[i] = make(chan struct{})
-		_, events, err := client.Subscribe(1, 1, uint32(200+i))
+		cancelSub, events, err := client.Subscribe(1, 1, uint32(200+i))
+		if i == 0 {
+			cancelFirst = cancelSub
+		}
 		if err != nil {
 			return runResult{violation: vt.Violationf("C11:subscribe-error", "Subscribe failed: %v", err)}
 		}
@@ -226,6 +239,30 @@ func run(sc Scenario, fault *hio.Fault, localCloseAt int) runResult {
 	}
 	for i := 0; i < sc.Events; i++ {
 		s.Feed(mkFrame(qnet.Event, uint32(1000+i), 1, 1, 200, []byte{byte(i), 2, 3, 4, 5}))
+	}
+	if sc.EndedSub && cancelFirst != nil {
+		s.Feed(mkFrame(qnet.Error, 0, 1, 1, 200, errorPayload("object terminated")))
+		select {
+		case <-subClosed[0]:
+		case <-time.After(bound):
+			return runResult{violation: vt.Violationf("C11:subscription-open", "the peer ended the subscription with an error frame: its channel was not closed within %v", bound)}
+		}
+		if fault == nil && localCloseAt < 0 {
+			// (only where the connection is known to be healthy at this point: a
+			// callback registered after the loss is not owed anything)
+			cbCounts = append(cbCounts, 0)
+			idx := len(cbCounts) - 1
+			client.OnDisconnect(func(err error) { atomic.AddInt32(&cbCounts[idx], 1) })
+		}
+		cancelFirst()
+		time.Sleep(300 * time.Microsecond)
+		if fault == nil && localCloseAt < 0 {
+			for i := range cbCounts {
+				if n := atomic.LoadInt32(&cbCounts[i]); n != 0 {
+					return runResult{violation: vt.Violationf("C11:callback-before-loss", "disconnect callback %d has fired (%d times) while the connection is healthy: the cancel function of a subscription which the peer had already ended was called after the callback was registered", i, n)}
+				}
+			}
+		}
 	}
 	for i := 0; i < sc.PeerCalls; i++ {
 		s.Feed(mkFrame(qnet.Call, uint32(5000+i), 1, 1, 200, []byte{byte(i)}))
